@@ -18,7 +18,8 @@ def b01 (b : Bool) : String := if b then "1" else "0"
 
 /-- `(inout <stmt>)` → `((inputs) (outputs) WholeFirstWrites OutputsDefined)`;
 `(replay <prefix> <region> (<perturbed vars>) <delta> (<queries>))` → values at the queries
-before the region, after it, and after it when started from the perturbed store. -/
+before the region, after it, and after it when started from the perturbed store;
+`(calls (<non-local vars>) (<callee body> ...))` → `((inputsCalls) (outputsCalls))`. -/
 def handle (s : Sexp) : String :=
   match s with
   | .list [.atom "inout", p] =>
@@ -32,6 +33,10 @@ def handle (s : Sexp) : String :=
     | some pr, some rg, some delta =>
       replay (exec pr (storeOf [])) rg pv.natList delta (qs.items.filterMap parseLoc)
     | _, _, _ => "bad-stmt"
+  | .list [.atom "calls", g, bodies] =>
+    match bodies.items.mapM parseStmt with
+    | none => "bad-stmt"
+    | some bs => "(" ++ showNats (inputsCalls g.natList bs) ++ " " ++ showNats (outputsCalls g.natList bs) ++ ")"
   | _ => "bad-op"
 
 def main : IO Unit := run handle
